@@ -30,7 +30,9 @@ def scratch_copy():
 
 
 def run_check(prop, repo, tier="quick", extra_env=None):
-    env = dict(os.environ, VERIF_REPO=repo, PYTHONDONTWRITEBYTECODE="1")
+    out_dir = os.path.join(repo, "_verif_out")
+    os.makedirs(out_dir, exist_ok=True)
+    env = dict(os.environ, VERIF_REPO=repo, PYTHONDONTWRITEBYTECODE="1", VERIF_EVIDENCE_DIR=out_dir, VERIF_REPLAY_DIR=out_dir)
     env.pop("PYTHONHASHSEED", None)
     if extra_env:
         env.update(extra_env)
